@@ -122,6 +122,12 @@ pub enum KHKind {
 #[derive(Clone)]
 pub struct KH(pub KHKind);
 
+impl Default for KH {
+    fn default() -> Self {
+        KH(KHKind::Constant)
+    }
+}
+
 impl<K: std::hash::Hash + Eq> caches::lfu::KeyHasher<K> for KH {
     fn hash_key<Q>(&self, key: &Q) -> u64
     where
